@@ -22,6 +22,15 @@ CHECKS = {
    text=("Same machinery as C06; for every replayed list the real resolve_citations is also run on every prefix and TLC checks that each prefix result "
          "equals the restriction of the whole result (members, group order, resource), and that no non-full citation sits under a resource introduced later."), note=RES_NOTE),
 }
+TOK_NOTE = ("Trusted: TLC 1.8 + Json module; one-off extractors that reproduce abstract candidates (harness/drv_tokenize.py); "
+            "calls that raise are judged under C04.")
+CHECKS["C12"] = dict(engine="tokenize", design="4 C12",
+   technique="TLA+ model checking of Tokenize.tla (TLC) + replay of every terminal configuration into the real Tokenizer + TLC trace validation on toy and document token streams",
+   text=("Tokenize.tla (one action per loop iteration of Tokenizer.tokenize: merge / pop-nominative / skip / emit, append_text) is model-checked "
+         "for every space skeleton and every sequence of <= 3 candidate matches over 5 (thorough 6) positions: Partition, TextPieces, SelfIndex, Increasing, IndexExact. "
+         "Every terminal configuration of the N=4 instance is replayed through a real Tokenizer with one-off extractors, and citation-dense generated documents "
+         "are run through the three shipped tokenizers; TLC judges every recorded token stream with the C12 monitor clauses (concat = text, offsets index own text, "
+         "increasing, index list exact) and checks it equals the model's Run() on the recorded candidates."), note=TOK_NOTE)
 NA_REASON = "check not built yet (work in progress; see DESIGN.md section 10 build order)"
 checks = []
 for p in props:
@@ -40,7 +49,9 @@ m = {"version": 1,
            "baseline_off_cmd": "cd /repo && /venv/bin/python -m pytest -ra -q -p no:cacheprovider --timeout=900 --continue-on-collection-errors",
            "source_commits": [], "add_only": True},
  "engines": [{"name": "resolve", "path": "spec/Resolve.tla spec/MC_Resolve.tla spec/Trace_Resolve.tla harness/chk_resolve.py harness/drv_resolve.py",
-              "serves_properties": ["C06", "C07", "C08"], "kind_free_text": "TLA+ spec, TLC model checking, transition replay, TLC trace validation"}],
+              "serves_properties": ["C06", "C07", "C08"], "kind_free_text": "TLA+ spec, TLC model checking, transition replay, TLC trace validation"},
+             {"name": "tokenize", "path": "spec/Tokenize.tla spec/MC_Tokenize.tla spec/Trace_Tokenize.tla harness/chk_tokenize.py harness/drv_tokenize.py harness/gendocs.py",
+              "serves_properties": ["C12"], "kind_free_text": "TLA+ spec, TLC model checking, configuration replay, TLC trace validation"}],
  "checks": checks,
  "notes": "See DESIGN.md. Exit codes: 0 held, 1 VIOLATION, 2 machinery failure.",
  "not_applicable": [{"property_id": p["id"], "reason": NA_REASON} for p in props if p["id"] not in CHECKS]}
